@@ -103,10 +103,18 @@ MinV(t) ==
 
 (***************************************************************************)
 (* Maximal instance: every property set (nested instances too, down to a   *)
-(* recursion budget), first non-null alternative, singleton containers.    *)
+(* recursion budget), first non-null alternative, singleton maps, arrays    *)
+(* with one element per alternative of their element type.                  *)
 (* Values near the maximal instance exercise hooks that probe for keys     *)
 (* while many other keys are present.                                      *)
 (***************************************************************************)
+\* the alternatives of a type with unions and aliases of unions flattened, null dropped, in declaration order
+RECURSIVE AltTypes(_), AltTypesSeq(_)
+AltTypesSeq(items) == IF items = <<>> THEN <<>> ELSE AltTypes(Head(items)) \o AltTypesSeq(Tail(items))
+AltTypes(t) == CASE t.kind = "or" -> AltTypesSeq(SelectSeq(t.items, LAMBDA x : ~IsNullT(x)))
+                 [] t.kind = "reference" /\ t.name \in AName /\ t.name # "LSPAny" -> AltTypes(ADef[t.name].type)
+                 [] OTHER -> <<t>>
+
 RECURSIVE MaxV(_, _)
 MaxInst(c, fuel) ==
     LET ps == PropsOf(c)
@@ -122,7 +130,8 @@ MaxV(t, fuel) ==
             ELSE IF t.name \in EName THEN MinV(t)
             ELSE IF t.name = "LSPAny" THEN OAny(AnyAlpha[5])          \* a nested object, never null (DESIGN 4.2)
             ELSE MaxV(ADef[t.name].type, fuel)
-      [] t.kind = "array" -> OArr(<<MaxV(t.element, fuel)>>)
+      \* one element PER ALTERNATIVE of the element type: arrays of unions are heterogeneous in the maximal instance
+      [] t.kind = "array" -> LET alts == AltTypes(t.element) IN OArr([i \in DOMAIN alts |-> MaxV(alts[i], fuel)])
       [] t.kind = "map" -> OMap("key" :> MaxV(t.value, fuel))
       [] t.kind = "or" -> LET nn == SelectSeq(t.items, LAMBDA x : ~IsNullT(x)) IN
                           IF nn = <<>> THEN JNull ELSE MaxV(nn[1], fuel)
